@@ -301,8 +301,18 @@ def execute(prog):
             if not want:
                 core.bump(out["probes"], "model_rejects")
             # ---- the library's verdict
-            arg = data if fmt != "strings" else \
-                (tuple(data) if rnd.random() < 0.5 else list(data))
+            from .c12 import _as_buffer
+            how = ["bytes", "bytes", "bytes", "bytearray", "mv", "arrayB",
+                   "arrayH", "mvH", "arrayI", "arrayb", "mvw"][
+                       it["fseed"] % 11]
+            if fmt == "strings":
+                arg = [_as_buffer(x, how) if how != "mvw"
+                       else memoryview(bytearray(x)) for x in data]
+                arg = tuple(arg) if rnd.random() < 0.5 else arg
+            elif how == "mvw":
+                arg = memoryview(bytearray(data))
+            else:
+                arg = _as_buffer(data, how)
             if it.get("precompute", "no") != "no" and \
                     not prog.get("legacy_generator"):
                 # the verifier's table path (both points precomputed)
